@@ -328,7 +328,8 @@ def run(case, ctx):
                     return r
                 outs.append(("dump", observed))
                 continue
-            status, out, err = ctx.run_tool("ovniemu", flags + [tdir])
+            targ, tcwd = ctx.spell(tdir, int(info["ihash"][:6], 16) + oi)
+            status, out, err = ctx.run_tool("ovniemu", flags + [targ], cwd=tcwd)
             verdict = emu_verdict(status, err)
             tail = "\n--- tool stderr (tail) ---\n" + err.decode(errors="replace")[-1200:]
             if verdict != "accept":
@@ -390,7 +391,8 @@ LINE = re.compile(r"^\s*(-?\d+)\s+(\S{3})\s+(\S+)\s*(.*)$")
 
 
 def check_dump(ctx, tdir, case, threads, streams, recs, info):
-    status, out, err = ctx.run_tool("ovnidump", ["-x", tdir])
+    targ, tcwd = ctx.spell(tdir, int(info["ihash"][:6], 16))
+    status, out, err = ctx.run_tool("ovnidump", ["-x", targ], cwd=tcwd)
     if status != 0:
         return result(False, "ovnidump-failed", None, "ovnidump exit %s\n--- tool stderr (tail) ---\n%s" % (status, err.decode(errors="replace")[-800:]), **info)
     seq = []
